@@ -671,6 +671,76 @@ def run(prog, ctx):
                     verdict, wit = True, ""
         res.tri(verdict, "C10.P", "C10.P|pmf|pass", "%s: %s" % (fp_.id, wit), fp_.id)
     res.rule("C10.P", n_p, 3, "cdf / pmf construction from rank")
+
+    # ---------------- C10.E merge consults the extremes of its argument.  The argument's min / max need not be means of its centroids
+    # (a decoded image carries heavy end centroids; the extremes are separate fields of the image): a merge that folds only centroid
+    # means into the receiver's min / max loses them.  Decided by reads: the fields behind `min_value()` / `max_value()` are read off
+    # the argument somewhere in `merge` or in what it hands the argument to.  Never read = violation.
+    mt = "tdigest::sketch::TDigestMut"
+    mg = C.pub_fn(prog, mt, "merge")
+    n_e = 0
+    if mg is not None and mg.argc >= 2:
+        role = {}
+        for acc in ("min_value", "max_value"):
+            af = C.pub_fn(prog, mt, acc)
+            if af is None:
+                continue
+            r = C.ret_expr(prog, af)
+            if r is None:
+                continue
+            fl = set(x[2] for x in sym.walk(r) if x[0] == "field" and x[1][0] == "param" and x[1][1] == 1)
+            fl -= {"centroids", "buffer"}
+            if len(fl) == 1:
+                role[acc] = fl.pop()
+
+        def reads_field(f, param, fld, depth=0):
+            """does f read `.fld` off its parameter `param` (directly, or in an in-crate callee it hands the parameter to)?"""
+            s_ = C.Sym(prog, f)
+            al = {param}
+            for b in f.blocks:
+                if b.cleanup:
+                    continue
+                for st in b.stmts:
+                    if st[0] != "=":
+                        continue
+                    for o in sym_places(st[2]):
+                        if ir.pl_local(o) in al and any(pr[0] == "." and pr[2] == fld for pr in ir.pl_proj(o)):
+                            return True
+                    if st[2][0] in ("use", "ref") and isinstance(st[1], int):
+                        src = st[2][1] if st[2][0] == "use" else st[2][2]
+                        pl = ir.op_place(src) if st[2][0] == "use" else src
+                        if pl is not None and ir.pl_local(pl) in al and all(pr[0] == "*" for pr in ir.pl_proj(pl)):
+                            al.add(st[1])
+            if depth < 2:
+                for b, site in f.calls():
+                    cal = site.get("callee")
+                    if cal in prog.fns:
+                        for i, a in enumerate(site["args"]):
+                            pl = ir.op_place(a)
+                            if pl is not None and ir.pl_local(pl) in al and all(pr[0] == "*" for pr in ir.pl_proj(pl)):
+                                if reads_field(prog.fns[cal], i + 1, fld, depth + 1):
+                                    return True
+            return False
+
+        def sym_places(rv):
+            out = []
+            def go(x):
+                if isinstance(x, list):
+                    if len(x) == 2 and x[0] in ("c", "m"):
+                        out.append(x[1])
+                        return
+                    for y in x:
+                        go(y)
+            go(rv)
+            if rv[0] in ("ref", "rawptr") and len(rv) > 2:
+                out.append(rv[2])
+            return out
+        for acc, fld in sorted(role.items()):
+            n_e += 1
+            ok = reads_field(mg, 2, fld)
+            res.tri(True if ok else False, "C10.E", "C10.E|%s" % acc, "TDigestMut::merge never reads `%s` of its argument: the argument's recorded extreme (which need not be the "
+                    "mean of an end centroid, e.g. in a decoded digest) is lost, %s() of the result is wrong and rank() saturates inside the true range" % (fld, acc), mg.id)
+    res.rule("C10.E", n_e, 2, "extremes of the merge argument consulted")
     # the centroid means rank/quantile interpolate between: a merged mean is the finite weighted mean, exact for ties (C15.A)
     C.import_rules(res, prog, ctx, "C10.A", "C15", ("C15.A",), "merged centroid mean", 3)
     # ---------------- C10.K a decision taken after a call that changes a counter looks at the counter after it (common.stale_count_decisions)
